@@ -672,7 +672,8 @@ func (vc *VC) specIndex(env *Env, x *SIndex) (Term, types.Type) {
 	i, it := vc.specExpr(env, x.I)
 	switch u := vt.Underlying().(type) {
 	case *types.Slice:
-		return vc.load(env.st, SliceElemPtr(v, vc.asInt(i)), u.Elem()), u.Elem()
+		_, isStruct := u.Elem().Underlying().(*types.Struct)
+		return vc.load(env.st, SliceElemPtrT(v, vc.asInt(i), isStruct), u.Elem()), u.Elem()
 	case *types.Array:
 		return Select(v, i), u.Elem()
 	case *types.Pointer:
@@ -793,7 +794,11 @@ func (vc *VC) specCall(env *Env, x *SCall) (Term, types.Type) {
 			env.fail("has() needs a map")
 		}
 		k = vc.coerceKey(env, k, kt, mm.Key())
-		return And(Not(Eq(m, NilP)), Select(vc.mapDom(env.st, mm, m), k)), boolT
+		h := And(Not(Eq(m, NilP)), Select(vc.mapDom(env.st, mm, m), k))
+		if env.facts != nil {
+			*env.facts = append(*env.facts, Implies(h, Lt(IntLit(0), vc.mapLen(env.st, m))))
+		}
+		return h, boolT
 	case "fresh":
 		need(1)
 		v, vt := vc.specExpr(env, x.Args[0])
@@ -1247,7 +1252,8 @@ func (vc *VC) specAddr(env *Env, e SExpr) (Term, types.Type) {
 		v, vt := vc.specExpr(env, x.X)
 		i, _ := vc.specExpr(env, x.I)
 		if sl, ok := vt.Underlying().(*types.Slice); ok {
-			return SliceElemPtr(v, i), sl.Elem()
+			_, isStruct := sl.Elem().Underlying().(*types.Struct)
+			return SliceElemPtrT(v, i, isStruct), sl.Elem()
 		}
 	}
 	env.fail("not an assignable location: %s", specString(e))
